@@ -181,6 +181,21 @@ def constructed_bitcoin(draw):
         ver = draw(st.sampled_from([0, 0, 5, 5, 5, 4, 6, 7, 1, 111, 196]))
         n = draw(st.sampled_from([20, 20, 20, 19, 21]))
         return intl.b58check(ver, draw(st.binary(min_size=n, max_size=n)))
+    if kind == 4:
+        # explicit 5-bit groups with odd padding: surplus all-zero group, non-zero padding bits, too many padding bits
+        witver = draw(st.sampled_from([0, 0, 1, 16]))
+        n = draw(st.sampled_from([20, 32, 2, 5, 40]))
+        groups = [witver] + intl.convertbits(list(draw(st.binary(min_size=n, max_size=n))), 8, 5, True)
+        tweak = draw(st.integers(0, 3))
+        if tweak == 0:
+            groups.append(0)
+        elif tweak == 1:
+            groups += [0, 0]
+        elif tweak == 2:
+            groups[-1] |= 1
+        else:
+            groups.append(draw(st.integers(0, 31)))
+        return intl.bech32_encode_groups(groups)
     witver = draw(st.sampled_from([0, 0, 0, 1, 2, 16, 17, 31]))
     n = draw(st.sampled_from([20, 32, 20, 32, 1, 2, 19, 21, 33, 40, 41]))
     a = intl.bech32_encode(witver, draw(st.binary(min_size=n, max_size=n)))
